@@ -45,6 +45,7 @@ def run(ctx):
     ctx.rule("C16.f", "keywords run together with identifiers are split at EVERY reserved word: "
              "Token::scan_alphabetic repeats its search on what is left after each word")
     rule_f(ctx, cr)
+    rule_run_boundary(ctx, cr)
     ctx.rule("C16.e", "optional spacing: a scanner that reads one character too far and gives it "
              "back (VecDeque::push_front) restores every scanner variable it changed because of "
              "that character, so `200ELSE` yields the same number token as `200 ELSE` (shared "
@@ -269,6 +270,24 @@ def rule_bc(ctx, cr):
               "not a reserved word, so in `GO SUB100` (no blank before the number) the scanner "
               "reads the identifier SUB100 and the line is an UNKNOWN STATEMENT, while "
               "`GO SUB 100`, `GOSUB100` and `GO TO100` all work")
+
+
+def rule_run_boundary(ctx, cr):
+    """alphabetic(): where a run ends depends on the next character's class, not on the letters
+    collected so far (reserved words are found afterwards, by scan_alphabetic)"""
+    f = cr.need_fn("lang::lex::BasicLexer::alphabetic")
+    ctx.touch(f)
+    tests = sorted({(c.callee or c.name).rsplit("::", 1)[1] for c in f.calls()
+                    if re.search(r"<impl str>::(ends_with|starts_with|contains|find|rfind|"
+                                 r"eq_ignore_ascii_case|len|chars|char_indices|get)$|"
+                                 r"PartialEq<str>|PartialEq<&str>|String as std::cmp::PartialEq",
+                                 c.callee or c.name)})
+    ctx.check(not tests, "C16.f", "alphabetic/run-ends-by-character-class", f.span,
+              "the collected text is only appended to, handed to scan_alphabetic, or tested for "
+              "emptiness",
+              "alphabetic() inspects the letters collected so far (%s) to decide where the run "
+              "ends: a suffix like REM that belongs to FOR/OR/XOR plus an identifier (`forEMP`) "
+              "cuts the identifier, so the run-together spelling means something else" % tests)
 
 
 def rule_f(ctx, cr):
